@@ -123,6 +123,9 @@ SCENQ(q_epoch_vs_pause, 3, ({0, Q}), 60, true, L({1, R}, {2, R}, {1, Q}, {2, Q},
 // a departure that advances the epoch racing with a retire / a quiescent state of another thread
 SCENQ(q_pause_vs_retire, 3, ({0, P}), 60, false, L({1, Q}, {2, Q}, {1, R}), L({1, R}, {2, R}), L({1, Q}, {2, Q}))
 SCENQ(q_pause_vs_q, 3, ({0, P}), 60, true, L({0, R}, {1, R}, {1, Q}), L({2, Q}, {1, Q}), L({0, 99}))
+// two departures pushing onto the same orphan list (lock-free push: head load ... CAS)
+SCENQ(q_pause_vs_pause, 3, ({0, P}), 60, false, L({0, R}, {1, R}), L({1, P}), L({2, Q}, {2, Q}))
+SCENQ(q_pause_vs_pause_prev, 4, ({0, P}), 60, false, L({0, R}, {1, R}, {0, Q}, {1, Q}, {2, Q}, {3, Q}, {0, Q}, {1, Q}), L({1, P}), L({2, Q}, {3, Q}, {2, Q}, {3, Q}))
 // retire racing with an epoch change completed by others
 SCENQ(q_retire_vs_epoch, 3, ({0, R}), 40, true, L({0, Q}, {1, R}, {1, Q}), L({2, Q}, {1, Q}, {2, Q}), L({0, 99}))
 // resume (register) racing with quiescent states / a retire of others
